@@ -203,6 +203,18 @@ func runC15(c *core.Ctx) {
 			w.LogText = gen.RenderLog(w.Log, w.Layout, nil)
 			c.Count("inputs_in_a_zoned_layout_with_equal_instants", 1)
 		}
+		if i%7 == 5 {
+			// a layout whose separators are characters that formatting and templating functions treat specially
+			// when text is mistaken for a format: the headings are data and come out as written, in every renderer
+			sep := []string{"%", "%d", "%s", "%!", "%v", "\\", "{{", "}}", "%%", "%+"}[r.Intn(10)]
+			w.Layout = "2006" + sep + "01" + sep + "02"
+			for di := range w.Log {
+				w.Log[di].Head = ""
+			}
+			layoutFlags = []string{"--date-format", w.Layout}
+			w.LogText = gen.RenderLog(w.Log, w.Layout, nil)
+			c.Count("inputs_in_a_layout_with_format_like_separators", 1)
+		}
 		files := w.Files()
 		srv.Write(files)
 		runArgs := func(args ...string) run.Result {
